@@ -104,7 +104,9 @@ async def explore(pid, tier, seed, m):
                     async for p in b.engine.subscribe(q, operation_name=opn, variables=variables): resps.append(p)
                     resp = resps[0] if resps else {"data": "no-event"}
                 except Exception as e:
-                    resp = {"data": "raised", "errors": [{"message": str(e)}]} if not spec else {"data": None, "errors": [{"message": "Server encountered an error."}]}
+                    # a refused document is answered with ONE errors-only response; an exception while the source is created means
+                    # the document got past validation
+                    resp = {"data": "raised", "errors": [{"message": f"{type(e).__name__}: {e}"}]}
             else:
                 try:
                     resp = await b.engine.execute(q, operation_name=opn, variables=variables)
